@@ -154,12 +154,33 @@ func TestC05Stateful(t *testing.T) {
 				w.c.NextScope = transaction.CalledByEntry
 				h.Mark("put-with-CalledByEntry-scope")
 			}
+			// every entry point and every spelling of "no name" / "default zone": the fee depends on whether a name is
+			// given, not on how the call is shaped
+			form := ""
 			if b.name != "" {
-				o = w.c.Invoke(w.alpha, w.cnt, "putNamed", b.value, detBytes("sig", 64), pub, []byte{}, b.name, "")
+				form = rapid.SampledFrom([]string{"putNamed(name, \"\")", "putNamed(name, \"\")", "putNamed(name, root zone spelt out)"}).Draw(rt, "form")
+				zone := ""
+				if strings.HasSuffix(form, "spelt out)") {
+					zone = "container"
+				}
+				o = w.c.Invoke(w.alpha, w.cnt, "putNamed", b.value, detBytes("sig", 64), pub, []byte{}, b.name, zone)
 			} else {
-				o = w.c.Invoke(w.alpha, w.cnt, "put", b.value, detBytes("sig", 64), pub, []byte{})
+				form = rapid.SampledFrom([]string{"put/4", "put/4", "put/5 meta=false", "putNamed(\"\", \"\")", "putNamed(\"\", root zone)", "putNamed(\"\", another zone)"}).Draw(rt, "form")
+				switch form {
+				case "put/4":
+					o = w.c.Invoke(w.alpha, w.cnt, "put", b.value, detBytes("sig", 64), pub, []byte{})
+				case "put/5 meta=false":
+					o = w.c.Invoke(w.alpha, w.cnt, "put", b.value, detBytes("sig", 64), pub, []byte{}, false)
+				case "putNamed(\"\", \"\")":
+					o = w.c.Invoke(w.alpha, w.cnt, "putNamed", b.value, detBytes("sig", 64), pub, []byte{}, "", "")
+				case "putNamed(\"\", root zone)":
+					o = w.c.Invoke(w.alpha, w.cnt, "putNamed", b.value, detBytes("sig", 64), pub, []byte{}, "", "container")
+				default:
+					o = w.c.Invoke(w.alpha, w.cnt, "putNamed", b.value, detBytes("sig", 64), pub, []byte{}, "", "some.zone")
+				}
 			}
-			h.Op("put %s repeated=%v calledByEntry=%v balance=%v(%s) need=%v (fee %d alias %d N %d) -> %s", b.label, repeated, scoped, target, cls, need, fee, aliasFee, n, o)
+			h.Mark("form:" + form)
+			h.Op("%s: put %s repeated=%v calledByEntry=%v balance=%v(%s) need=%v (fee %d alias %d N %d) -> %s", form, b.label, repeated, scoped, target, cls, need, fee, aliasFee, n, o)
 			canPay := target.Cmp(need) >= 0
 			if scoped && canPay && !o.Halt {
 				canPay = false
